@@ -13,7 +13,8 @@ KINDS = [k for k in _ser.ALL_KINDS if k != "mention"]
 
 def run(tier, seed):
     quick = tier != "thorough"
-    runs = [("rdf", 1, KINDS), ("rdf", 2 if quick else 3, ["entity", "generation", "attribution"])]
+    runs = [("rdf", 1, KINDS), ("rdf", 2 if quick else 3, ["entity", "association"]),
+            ("rdf", 3, ["agent"])]
     behaviours = []
     stA = stT = 0
     wall = 0.0
